@@ -73,8 +73,9 @@ func partARun(r *eng.Run) {
 	}
 }
 
-// spread permutes the groups by a fixed stride so that a run cut short by its
-// budget has still sampled every kind of option group (the set is unchanged).
+// spread orders the groups (the set is unchanged) so that a run cut short by
+// its budget has still sampled every kind of option group: a fixed-stride
+// permutation, then a stable partition by how much of the group is executed.
 func spread(gs []*Group) []*Group {
 	n := len(gs)
 	stride := 37
@@ -91,6 +92,19 @@ func spread(gs []*Group) []*Group {
 	for i := 0; i < n; i++ {
 		out = append(out, gs[(i*stride)%n])
 	}
+	// first the groups that are executed in full even on the unchanged tree (at
+	// most one handler), sequential walker before concurrent; then the rest
+	class := func(g *Group) int {
+		c := Case{API: g.API, H: g.H, Conc: g.Conc}
+		switch {
+		case len(c.handlers()) <= 1 && !c.parallel():
+			return 0
+		case len(c.handlers()) <= 1:
+			return 1
+		}
+		return 2
+	}
+	sort.SliceStable(out, func(i, j int) bool { return class(out[i]) < class(out[j]) })
 	return out
 }
 
